@@ -89,6 +89,7 @@ def gen_history(rng, ctx):
         if rng.random() < 0.3:
             ann += [(a, None) for a in H.unrelated(rng, 1) if not str(a[0]).startswith(('DYLD_', 'PERF_', 'DBG_DYLD'))]
     samples = []
+    prev_frames = []
     smp = []      # sampler thread program
     big = rng.random() < 0.05
     if big:      # hundreds of images, very deep stacks
@@ -106,6 +107,13 @@ def gen_history(rng, ctx):
                           base + rng.randrange(0, 1 << 20) if c < 0.8 else rng.choice((0, (1 << 64) - 1, rng.getrandbits(64))))
         if depth >= 8 and rng.random() < 0.25:
             frames = [frames[0]] * depth          # deep recursion: consecutive data records carry identical words
+        if k and rng.random() < 0.3 and prev_frames:
+            # a different stack that Python's hash() cannot tell from an earlier one: ints hash modulo 2^61 - 1, so words
+            # that differ by a multiple of it (and -1 / -2 as 64-bit words do not, but 0 and 2^61 - 1 do) collide
+            m = (1 << 61) - 1
+            frames = [f + m * rng.choice((1, 2, 3)) if f + 3 * m < (1 << 64) else f - m for f in prev_frames]
+            depth = len(frames)
+        prev_frames = list(frames)
         n_records = (depth + 3) // 4 + rng.choice((0, 0, 1))
         nframes = rng.choice((depth, depth, max(0, depth - 1), depth + 2, 4 * n_records, 0, max(0, depth - 5), rng.randrange(depth + 1)))
         if rng.random() < 0.15:
